@@ -567,6 +567,104 @@ Proof.
     rewrite X in H. destruct H.
 Qed.
 
+(* ================================================================ requests handed out are on file.
+   Every front-channel request that an output of the model hands to the application (`SentPending i b r`) is
+   pending in the client's state afterwards: the loop files the request before it reports it, an IdP asked over
+   the front channel stays in the list object (only IdPs that answer over SOAP are taken out), so the local
+   logout at the end of a pass - which would drop the subject's requests - happens only when nothing was handed
+   out.  Hence the monitor learns nothing from the output that the client's state does not tell it
+   (`ghost_step_model`), and the proofs below may work with `ghost_step0`. *)
+Lemma logout_loop_sent w ans s ref dl l : forall st nd acc st' nd' acc',
+  logout_loop w ans s ref dl l st nd acc = (st', inr (nd', acc')) ->
+  (forall i b r, In (SentPending i b r) acc ->
+     In r (keys (pend st)) /\ In i (heap st ref) /\ asked_by_soap w i = false) ->
+  (forall e, In e l -> asked_by_soap w e = false -> In e (heap st ref)) ->
+  forall i b r, In (SentPending i b r) acc' ->
+    In r (keys (pend st')) /\ In i (heap st' ref) /\ asked_by_soap w i = false.
+Proof.
+  induction l as [|e l' IH]; intros st nd acc st' nd' acc' H Hacc Hl; cbn in H.
+  - injection H as <- <- <-. exact Hacc.
+  - destruct (choose w e) as [b0|] eqn:Ec; [|discriminate].
+    destruct (c_get (now st) (db st) s e false) eqn:Gt; try discriminate.
+    all: destruct b0.
+    all: try (assert (Fr : asked_by_soap w e = false) by (apply (asked_front _ _ _ Ec); discriminate);
+              apply (IH _ _ _ _ _ _ H);
+              [intros i1 b1 r1 Hin; apply in_app_or in Hin as [Hin|[Hin|[]]];
+                 [destruct (Hacc _ _ _ Hin) as (X1 & X2 & X3); split; [|split; assumption];
+                  cbn; unfold keys; rewrite map_app; apply in_or_app; left; exact X1
+                 |injection Hin as <- <- <-; split; [|split; [apply Hl; [left; reflexivity|exact Fr]|exact Fr]];
+                  cbn; unfold keys; rewrite map_app; apply in_or_app; right; left; reflexivity]
+              |intros e1 He1 F1; cbn; apply Hl; [right; exact He1|exact F1]]).
+    all: assert (So : asked_by_soap w e = true) by (unfold asked_by_soap; rewrite Ec; reflexivity).
+    all: destruct (answer ans e) eqn:Ea; try discriminate.
+    all: try (apply (IH _ _ _ _ _ _ H); [exact Hacc|intros e1 He1 F1; apply Hl; [right; exact He1|exact F1]]).
+    all: apply (IH _ _ _ _ _ _ H);
+      [intros i1 b1 r1 Hin; apply in_app_or in Hin as [Hin|[Hin|[]]]; [|discriminate];
+       destruct (Hacc _ _ _ Hin) as (X1 & X2 & X3); split; [exact X1|split; [|exact X3]];
+       cbn; rewrite Nat.eqb_refl; apply In_remove_first0; [intros ->; congruence|exact X2]
+      |intros e1 He1 F1; cbn; rewrite Nat.eqb_refl; apply In_remove_first0;
+       [intros ->; congruence|apply Hl; [right; exact He1|exact F1]]].
+Qed.
+
+Lemma do_logout_sent w ans s ref dl st st' acc :
+  do_logout w ans s ref dl st = (st', OSent acc) ->
+  forall i b r, In (SentPending i b r) acc -> In r (keys (pend st')).
+Proof.
+  unfold do_logout. destruct (deadline_passed (now st) dl).
+  { destruct (local_logout st s); discriminate. }
+  destruct (logout_loop w ans s ref dl (heap st ref) st (heap st ref) []) as [st1 res] eqn:L.
+  destruct res as [e|[[|x nd] acc0]]; try discriminate.
+  intros H i b r Hin.
+  assert (P : forall i b r, In (SentPending i b r) acc0 ->
+                In r (keys (pend st1)) /\ In i (heap st1 ref) /\ asked_by_soap w i = false).
+  { apply (logout_loop_sent _ _ _ _ _ _ _ _ _ _ _ _ L); [intros ? ? ? []|intros e He _; exact He]. }
+  apply finish_pass_cases in H as [(_ & -> & X)|[(_ & Fb & _ & X)|(_ & _ & _ & _ & X)]]; try discriminate.
+  - injection X as <-. exact (proj1 (P _ _ _ Hin)).
+  - injection X as <-. destruct (P _ _ _ Hin) as (_ & X & _). rewrite Fb in X. destruct X.
+Qed.
+
+Lemma step_sent w st o st' acc :
+  step w st o = (st', OSent acc) -> forall i b r, In (SentPending i b r) acc -> In r (keys (pend st')).
+Proof.
+  intros H. destruct o; cbn [step] in H.
+  all: try (injection H as _ H; discriminate).
+  - destruct k; [destruct (response_fresh (now st) cond_nooa sess_nooa)| |]; discriminate.
+  - injection H as _ H. destruct (c_get_identity (now st) (db st) s ents chk) as [[? ?]|]; discriminate.
+  - injection H as _ H. destruct (c_get (now st) (db st) s i chk); discriminate.
+  - injection H as _ H. destruct (c_stale (now st) (db st) s srcs); discriminate.
+  - unfold global_logout in H. destruct (lookup s (db st)) as [l|]; [|discriminate].
+    exact (do_logout_sent _ _ _ _ _ _ _ _ H).
+  - unfold handle_logout_response in H. destruct (negb success); [discriminate|].
+    destruct (lookup r (pend st)) as [p|]; [|discriminate].
+    destruct (negb (p_entity p =? i)%nat); [discriminate|]. cbv zeta in H.
+    destruct (list_eqb _ _).
+    { destruct (local_logout _ _); discriminate. }
+    destruct (mem i _); [|discriminate].
+    exact (do_logout_sent _ _ _ _ _ _ _ _ H).
+  - unfold handle_logout_request in H.
+    destruct (named =? cur)%nat; [destruct (local_logout st cur)|]; destruct (existsb _ _); discriminate.
+  - destruct (local_logout st s); discriminate.
+Qed.
+
+Lemma unfiled_model w st o st' ou : step w st o = (st', ou) -> unfiled ou (view_of st') = [].
+Proof.
+  intros H. unfold unfiled. destruct ou; try reflexivity. cbn [handed_out].
+  pose proof (step_sent _ _ _ _ _ H) as P. rewrite pending_ids_view. clear H.
+  induction l as [|x l IH]; [reflexivity|]. cbn [flat_map].
+  assert (IH' : forall i b r, In (SentPending i b r) l -> In r (keys (pend st'))).
+  { intros i b r Hin. apply (P i b r). right; exact Hin. }
+  destruct x as [i b r|i]; [|exact (IH IH')]. cbn [app filter fst].
+  assert (M : mem r (keys (pend st')) = true) by (apply mem_In, (P i b r); left; reflexivity).
+  rewrite M. cbn [negb]. exact (IH IH').
+Qed.
+
+Lemma ghost_step_model w st g o st' ou :
+  step w st o = (st', ou) ->
+  ghost_step w g (view_of st) o ou (view_of st') = ghost_step0 w g (view_of st) o ou (view_of st').
+Proof.
+  intros H. unfold ghost_step, ghost_step0, news_of. rewrite (unfiled_model _ _ _ _ _ H), app_nil_r. reflexivity.
+Qed.
+
 (* ================================================================ the cache invariant *)
 Definition KInv (st : state) (g : ghost) : Prop :=
   g_now g = now st /\
@@ -576,7 +674,7 @@ Definition KInv (st : state) (g : ghost) : Prop :=
 Lemma ghost_step_know w g vb o ou va :
   g_know (ghost_step w g vb o ou va) = know_after g o ou va /\ g_now (ghost_step w g vb o ou va) = now_after g o.
 Proof.
-  unfold ghost_step. destruct o; try (split; reflexivity).
+  unfold ghost_step, ghost_step_n. destruct o; try (split; reflexivity).
   - destruct (present vb s); split; reflexivity.
   - destruct (answering g r i success) as [[n T]|]; split; reflexivity.
 Qed.
@@ -1144,7 +1242,7 @@ Qed.
 
 Definition GStep (w : world) (st : state) (g : ghost) (o : op) (st' : state) (ou : out) : Prop :=
   cl_pending w g (view_of st) o ou (view_of st') /\ cl_ends w g (view_of st) o ou (view_of st')
-  /\ LInv w st' (ghost_step w g (view_of st) o ou (view_of st')).
+  /\ LInv w st' (ghost_step0 w g (view_of st) o ou (view_of st')).
 
 Lemma frame_store st s i nooa ot :
   keeps (view_of st) (view_of (store st s i nooa ot)) None
@@ -1472,7 +1570,7 @@ Proof.
       destruct (frame_same st st None eq_refl) as (K & N).
       split; [exact Logic.I|]. split.
       - cbn [cl_ends]. split; [apply keeps_weaken; exact K|]. split; [exact N|]. intros X; congruence.
-      - unfold ghost_step. rewrite P.
+      - unfold ghost_step0, ghost_step_n. rewrite P.
         apply (LInv_same_pend w st); try reflexivity;
           [exact I|cbn; apply (L_now _ _ _ I)|apply (L_db _ _ _ I)|apply db_keeps_same; reflexivity|auto]. }
   assert (P : present (view_of st) s = true) by (apply present_view; congruence).
@@ -1480,7 +1578,7 @@ Proof.
   destruct (L_db _ _ _ I s l Ls) as [ND NE].
   pose proof (L_now _ _ _ I) as Enow. pose proof (L_ntxn _ _ _ I) as Entx. pose proof (L_nodup _ _ _ I) as NDp.
   assert (Hiss : forall e, In e (keys l) -> lookup e l <> None) by (intros e He; apply lookup_In_keys; exact He).
-  unfold GStep, ghost_step. rewrite P. cbn [cl_pending cl_ends]. cbv zeta.
+  unfold GStep, ghost_step0, ghost_step_n. rewrite P. cbn [cl_pending cl_ends]. cbv zeta.
   rewrite issuers_view, Ls, Enow, Entx. unfold wait_start.
   set (wait := pass_wait w (g_know g s) ans (keys l)).
   assert (NDw : NoDup wait) by (apply NoDup_filter; exact ND).
@@ -1762,7 +1860,7 @@ Proof.
   intros KI I H. destruct (answering g r i success) as [[n T]|] eqn:An.
   2:{ (* does not answer a pending request: nothing changes *)
       pose proof (not_answering_same _ _ _ _ _ _ _ _ _ I An H) as ->.
-      unfold GStep, ghost_step. cbn [cl_pending cl_ends]. rewrite An.
+      unfold GStep, ghost_step0, ghost_step_n. cbn [cl_pending cl_ends]. rewrite An.
       split; [intros _; split; reflexivity|]. split; [exact Logic.I|].
       apply (LInv_same_pend w st); try reflexivity;
         [exact I|cbn; apply (L_now _ _ _ I)|apply (L_db _ _ _ I)|apply db_keeps_same; reflexivity|auto]. }
@@ -1779,7 +1877,7 @@ Proof.
   unfold handle_logout_response in H. cbn [negb] in H. rewrite Lr in H.
   cbn [p_entity p_ref p_subj p_expire] in H. rewrite Nat.eqb_refl in H. cbn [negb set_pend heap] in H. rewrite Hh in H.
   fold olds in H.
-  unfold GStep, ghost_step. cbn [cl_pending cl_ends]. rewrite An. cbv zeta.
+  unfold GStep, ghost_step0, ghost_step_n. cbn [cl_pending cl_ends]. rewrite An. cbv zeta.
   unfold wait_answer. rewrite (wait_minus_remove_first i _ ND), Enow.
   split; [intros X; discriminate|].
   (* the session ends: the subject's requests go with it *)
@@ -1917,18 +2015,144 @@ Proof.
     + apply GStep_same; [exact I|exact Logic.I].
 Qed.
 
+(* ================================================================ cl_others: one subject's logout leaves the
+   pending requests of the other subjects alone.  A pass of do_logout appends requests of its own subject only
+   and, when it ends the session, drops that subject's requests only; an answer takes out the answered request
+   and the moot ones holding the SAME list object - and a list object belongs to one transaction, hence to one
+   subject (LInv.L_pend); the list objects of other transactions are not touched. *)
+Lemma In_lookup_nodup {V} k (v : V) l : NoDup (keys l) -> In (k, v) l -> lookup k l = Some v.
+Proof.
+  induction l as [|[k' v'] r IH]; cbn; [intros _ []|]. intros N. inversion N as [|? ? Nk Nr]; subst.
+  intros [H|H].
+  - injection H as -> ->. rewrite Nat.eqb_refl. reflexivity.
+  - destruct (k' =? k)%nat eqn:E.
+    + apply Nat.eqb_eq in E. subst k'. exfalso. apply Nk. exact (In_keys _ _ _ H).
+    + apply IH; assumption.
+Qed.
+
+Lemma In_remove {V} (rp : nat * V) k l : In rp (remove k l) <-> In rp l /\ fst rp <> k.
+Proof.
+  induction l as [|[k' v'] r IH]; cbn; [tauto|]. destruct (k' =? k)%nat eqn:E.
+  - apply Nat.eqb_eq in E. subst k'. rewrite IH. split.
+    + intros [A B]. split; [right; exact A|exact B].
+    + intros [[A|A] B]; [subst rp; cbn in B; congruence|split; assumption].
+  - apply Nat.eqb_neq in E. cbn. rewrite IH. split.
+    + intros [A|[A B]]; [subst rp; cbn; split; [left; reflexivity|exact E]|split; [right; exact A|exact B]].
+    + intros [[A|A] B]; [left; exact A|right; split; assumption].
+Qed.
+
+Lemma purge_others s (l : list (rid * pentry)) rp : p_subj (snd rp) <> s -> (In rp (purge s l) <-> In rp l).
+Proof.
+  intros N. unfold purge. rewrite filter_In. split; [intros [A _]; exact A|intros A; split; [exact A|]].
+  apply negb_true_iff, Nat.eqb_neq. exact N.
+Qed.
+
+Lemma do_logout_others w ans s ref dl st st' ou :
+  do_logout w ans s ref dl st = (st', ou) ->
+  (forall n', n' <> ref -> heap st' n' = heap st n') /\
+  (forall rp, p_subj (snd rp) <> s -> (In rp (pend st') <-> In rp (pend st))).
+Proof.
+  unfold do_logout. destruct (deadline_passed (now st) dl).
+  - destruct (local_logout st s) as [st2|] eqn:L; intros H; injection H as <- <-.
+    + apply local_logout_some in L as (_ & _ & _ & Lp & Lh & _). split; [intros n' _; rewrite Lh; reflexivity|].
+      intros rp N. rewrite Lp. apply purge_others; exact N.
+    + split; [intros; reflexivity|intros; reflexivity].
+  - destruct (logout_loop w ans s ref dl (heap st ref) st (heap st ref) []) as [st1 res] eqn:L.
+    destruct (logout_loop_frame _ _ _ _ _ _ _ _ _ _ _ L) as (A & B & C & D & news & E1 & E2 & E3 & E4 & E5).
+    assert (P1 : forall rp, p_subj (snd rp) <> s -> (In rp (pend st1) <-> In rp (pend st))).
+    { intros [r p] N. rewrite E1, in_app_iff. split; [intros [X|X]; [exact X|]|intros X; left; exact X].
+      destruct (E3 r p X) as (_ & _ & Hs & _). cbn in N. congruence. }
+    destruct res as [e|[[|x nd] acc]].
+    + intros H; injection H as <- <-. split; assumption.
+    + intros H. apply finish_pass_cases in H as [(_ & -> & _)|[(_ & _ & Lg & _)|(_ & _ & _ & -> & _)]].
+      * split; assumption.
+      * apply local_logout_some in Lg as (_ & _ & _ & Lp & Lh & _).
+        split; [intros n' Hn; rewrite Lh; apply C; exact Hn|].
+        intros rp N. rewrite Lp, (purge_others _ _ _ N). apply P1; exact N.
+      * split; assumption.
+    + intros H; injection H as <- <-. split; assumption.
+Qed.
+
+Lemma pend_others_view st st' s ref :
+  (forall rp, p_subj (snd rp) <> s -> (In rp (pend st') <-> In rp (pend st))) ->
+  (forall n', n' <> ref -> heap st' n' = heap st n') ->
+  (forall rp, In rp (pend st) -> p_ref (snd rp) = ref -> p_subj (snd rp) = s) ->
+  pend_others (view_of st) (view_of st') s.
+Proof.
+  intros Hp Hh Hr rp N. rewrite !v_pending_view, !in_map_iff.
+  assert (Same : forall rp0, In rp0 (pend st) -> p_subj (snd rp0) <> s -> pv_of st' (snd rp0) = pv_of st (snd rp0)).
+  { intros rp0 H0 N0. unfold pv_of. rewrite Hh; [reflexivity|]. intros X. apply N0, Hr; assumption. }
+  split; intros (rp0 & E & H0); subst rp; unfold pv_of in N; cbn in N.
+  - pose proof (proj1 (Hp rp0 N) H0) as H1. exists rp0. split; [rewrite (Same rp0 H1 N); reflexivity|exact H1].
+  - exists rp0. split; [rewrite (Same rp0 H0 N); reflexivity|apply Hp; assumption].
+Qed.
+
+Lemma ref_subject w st g n T :
+  LInv w st g -> g_txn g n = Some T ->
+  forall rp, In rp (pend st) -> p_ref (snd rp) = n -> p_subj (snd rp) = t_subj T.
+Proof.
+  intros I Ht [r p] H E. cbn in *. apply (In_lookup_nodup _ _ _ (L_nodup _ _ _ I)) in H.
+  destruct (L_pend _ _ _ I r p H) as (T0 & HT0 & Hs & _). rewrite E, Ht in HT0. injection HT0 as <-.
+  symmetry; exact Hs.
+Qed.
+
+Lemma others_step w st g o st' ou :
+  LInv w st g -> step w st o = (st', ou) -> cl_others w g (view_of st) o ou (view_of st').
+Proof.
+  intros I H. destruct o; try exact Logic.I; cbn [step] in H; cbn [cl_others].
+  - (* StartLogout *)
+    unfold global_logout in H. destruct (lookup s (db st)) as [l|].
+    2:{ injection H as <- _. intros rp _. reflexivity. }
+    apply do_logout_others in H as [Hh Hp].
+    apply (pend_others_view st st' s (next_ref st)).
+    + exact Hp.
+    + intros n' Hn. rewrite (Hh n' Hn). cbn. apply Nat.eqb_neq in Hn. rewrite Hn. reflexivity.
+    + intros [r p] Hin E. exfalso. cbn in E. apply (In_lookup_nodup _ _ _ (L_nodup _ _ _ I)) in Hin.
+      destruct (Old_pend _ _ _ I r p Hin) as (T0 & _ & _ & _ & Lt & _). lia.
+  - (* LogoutResponse *)
+    destruct (answering g r i success) as [[n T]|] eqn:An; [|exact Logic.I].
+    destruct (answering_some _ _ _ _ _ _ An) as (-> & Ho & Ht).
+    destruct (L_own _ _ _ I r n i T Ho Ht) as (Lr & _ & _).
+    pose proof (ref_subject _ _ _ _ _ I Ht) as Rs.
+    unfold handle_logout_response in H. cbn [negb] in H. rewrite Lr in H.
+    cbn [p_entity p_ref p_subj p_expire] in H. rewrite Nat.eqb_refl in H. cbn [negb] in H. cbv zeta in H.
+    set (st1 := set_pend st (drop_moot n i (remove r (pend st)))) in *.
+    assert (P1 : forall rp, p_subj (snd rp) <> t_subj T -> (In rp (pend st1) <-> In rp (pend st))).
+    { intros rp N. unfold st1. cbn [pend set_pend]. unfold drop_moot. rewrite filter_In, In_remove.
+      split; [intros [[A _] _]; exact A|]. intros A. split; [split; [exact A|]|].
+      - intros X. destruct rp as [r' p']. cbn in X; subst r'.
+        apply (In_lookup_nodup _ _ _ (L_nodup _ _ _ I)) in A. rewrite Lr in A. injection A as <-. apply N; reflexivity.
+      - apply negb_true_iff, andb_false_iff. left. apply Nat.eqb_neq. intros X. apply N, Rs; assumption. }
+    assert (X : (forall n', n' <> n -> heap st' n' = heap st n') /\
+                (forall rp, p_subj (snd rp) <> t_subj T -> (In rp (pend st') <-> In rp (pend st)))).
+    { destruct (list_eqb (heap st1 n) [i]).
+      - destruct (local_logout st1 (t_subj T)) as [st2|] eqn:L; injection H as <- _.
+        + apply local_logout_some in L as (_ & _ & _ & Lp & Lh & _). split; [intros n' _; rewrite Lh; reflexivity|].
+          intros rp N. rewrite Lp, (purge_others _ _ _ N). apply P1; exact N.
+        + split; [intros; reflexivity|exact P1].
+      - destruct (mem i (heap st1 n)).
+        + apply do_logout_others in H as [Hh Hp]. split.
+          * intros n' Hn. rewrite (Hh n' Hn). cbn. apply Nat.eqb_neq in Hn. rewrite Hn. reflexivity.
+          * intros rp N. rewrite (Hp rp N). apply P1; exact N.
+        + injection H as <- _. split; [intros; reflexivity|exact P1]. }
+    destruct X as [Hh Hp]. exact (pend_others_view st st' (t_subj T) n Hp Hh Rs).
+Qed.
+
 Lemma bookkeeping_from : forall h w st g,
   KInv st g -> LInv w st g ->
-  spec_from cl_pending w g (view_of st) (run_from w st h) /\ spec_from cl_ends w g (view_of st) (run_from w st h).
+  spec_from cl_pending w g (view_of st) (run_from w st h) /\ spec_from cl_ends w g (view_of st) (run_from w st h)
+  /\ spec_from cl_others w g (view_of st) (run_from w st h).
 Proof.
-  induction h as [|o r IH]; intros w st g KI I; cbn; [split; exact Logic.I|].
+  induction h as [|o r IH]; intros w st g KI I; cbn; [repeat split; exact Logic.I|].
   destruct (step w st o) as [st' ou] eqn:S. cbn.
   destruct (all_step _ _ _ _ _ _ KI I S) as (A & B & C).
-  destruct (IH w st' _ (KInv_step _ _ _ _ _ _ KI S) C) as [D E]. split; split; assumption.
+  pose proof (others_step _ _ _ _ _ _ I S) as O.
+  rewrite <- (ghost_step_model w st g o st' ou S) in C.
+  destruct (IH w st' _ (KInv_step _ _ _ _ _ _ KI S) C) as (D & E & F). repeat split; assumption.
 Qed.
 
 Lemma bookkeeping_holds w t0 h :
-  spec_cl cl_pending w t0 (run w t0 h) /\ spec_cl cl_ends w t0 (run w t0 h).
+  spec_cl cl_pending w t0 (run w t0 h) /\ spec_cl cl_ends w t0 (run w t0 h) /\ spec_cl cl_others w t0 (run w t0 h).
 Proof.
   unfold spec_cl, run. rewrite <- (view_init t0). apply bookkeeping_from; [apply KInv_init|apply LInv_init].
 Qed.
@@ -1936,7 +2160,9 @@ Qed.
 Lemma pending_holds w t0 h : spec_cl cl_pending w t0 (run w t0 h).
 Proof. exact (proj1 (bookkeeping_holds w t0 h)). Qed.
 Lemma ends_holds w t0 h : spec_cl cl_ends w t0 (run w t0 h).
-Proof. exact (proj2 (bookkeeping_holds w t0 h)). Qed.
+Proof. exact (proj1 (proj2 (bookkeeping_holds w t0 h))). Qed.
+Lemma others_holds w t0 h : spec_cl cl_others w t0 (run w t0 h).
+Proof. exact (proj2 (proj2 (bookkeeping_holds w t0 h))). Qed.
 
 (* ================================================================ the boolean monitor IS the stated monitor *)
 Lemma returnable_b_iff know nw timed s cands t :
@@ -2162,19 +2388,39 @@ Proof.
   - rewrite !andb_true_iff, keeps_b_iff, no_new_b_iff, pend_kept_b_iff; tauto.
 Qed.
 
+Lemma pend_others_b_iff vb va s : pend_others_b vb va s = true <-> pend_others vb va s.
+Proof.
+  unfold pend_others_b, pend_others. rewrite andb_true_iff, !forallb_forall. split.
+  - intros [A B] rp N. split; intros H.
+    + specialize (A rp H). apply orb_true_iff in A as [A|A]; [apply Nat.eqb_eq in A; contradiction|].
+      apply pend_in_b_iff; exact A.
+    + specialize (B rp H). apply orb_true_iff in B as [B|B]; [apply Nat.eqb_eq in B; contradiction|].
+      apply pend_in_b_iff; exact B.
+  - intros P. split; intros rp H; destruct (pv_subj (snd rp) =? s)%nat eqn:E; try reflexivity; cbn;
+      apply Nat.eqb_neq in E; apply pend_in_b_iff, (P rp E), H.
+Qed.
+
+Lemma cl_others_b_iff w g vb o ou va : cl_others_b g vb o va = true <-> cl_others w g vb o ou va.
+Proof.
+  unfold cl_others_b, cl_others. destruct o; try (split; [intros _; exact I|reflexivity]).
+  - apply pend_others_b_iff.
+  - destruct (answering g r i success) as [[n T]|]; [apply pend_others_b_iff|split; [intros _; exact I|reflexivity]].
+Qed.
+
 Lemma step_ok_b_iff w g vb o ou va : step_ok_b w g vb o ou va = true <-> step_ok w g vb o ou va.
 Proof.
   unfold step_ok_b, failing_clause, step_ok, cl_iso, cl_exp.
   rewrite <- (cl_cache_b_iff w g vb o ou va false), <- (cl_cache_b_iff w g vb o ou va true),
     <- (cl_accept_b_iff w g), <- (cl_after_b_iff w g), <- (cl_request_b_iff w g), <- (cl_pending_b_iff w g vb o ou va),
-    <- cl_ends_b_iff.
+    <- cl_ends_b_iff, <- (cl_others_b_iff w g vb o ou va).
   destruct (cl_cache_b g vb o ou va false); cbn [negb]; [|split; [discriminate|intros [X _]; discriminate]].
   destruct (cl_cache_b g vb o ou va true); cbn [negb]; [|split; [discriminate|intros (_ & X & _); discriminate]].
   destruct (cl_accept_b vb o ou va); cbn [negb]; [|split; [discriminate|intros (_ & _ & X & _); discriminate]].
   destruct (cl_after_b vb o ou va); cbn [negb]; [|split; [discriminate|intros (_ & _ & _ & X & _); discriminate]].
   destruct (cl_request_b vb o ou va); cbn [negb]; [|split; [discriminate|intros (_ & _ & _ & _ & X & _); discriminate]].
   destruct (cl_pending_b g vb o va); cbn [negb]; [|split; [discriminate|intros (_ & _ & _ & _ & _ & X & _); discriminate]].
-  destruct (cl_ends_b w g vb o ou va); cbn [negb]; [|split; [discriminate|intros (_ & _ & _ & _ & _ & _ & X); discriminate]].
+  destruct (cl_ends_b w g vb o ou va); cbn [negb]; [|split; [discriminate|intros (_ & _ & _ & _ & _ & _ & X & _); discriminate]].
+  destruct (cl_others_b g vb o va); cbn [negb]; [|split; [discriminate|intros (_ & _ & _ & _ & _ & _ & _ & X); discriminate]].
   split; [intros _; repeat split|reflexivity].
 Qed.
 
@@ -2192,7 +2438,8 @@ Proof. apply spec_from_b_iff. Qed.
 Lemma spec_from_split w : forall tr g vb,
   spec_from step_ok w g vb tr <->
   spec_from cl_iso w g vb tr /\ spec_from cl_exp w g vb tr /\ spec_from cl_accept w g vb tr /\ spec_from cl_after w g vb tr
-  /\ spec_from cl_request w g vb tr /\ spec_from cl_pending w g vb tr /\ spec_from cl_ends w g vb tr.
+  /\ spec_from cl_request w g vb tr /\ spec_from cl_pending w g vb tr /\ spec_from cl_ends w g vb tr
+  /\ spec_from cl_others w g vb tr.
 Proof.
   induction tr as [|[[o ou] va] r IH]; intros g vb; cbn; [tauto|]. rewrite IH. unfold step_ok. tauto.
 Qed.
@@ -2200,7 +2447,7 @@ Qed.
 Lemma spec_split w t0 tr :
   spec w t0 tr <->
   spec_cl cl_iso w t0 tr /\ spec_cl cl_exp w t0 tr /\ spec_cl cl_accept w t0 tr /\ spec_cl cl_after w t0 tr
-  /\ spec_cl cl_request w t0 tr /\ spec_cl cl_pending w t0 tr /\ spec_cl cl_ends w t0 tr.
+  /\ spec_cl cl_request w t0 tr /\ spec_cl cl_pending w t0 tr /\ spec_cl cl_ends w t0 tr /\ spec_cl cl_others w t0 tr.
 Proof. apply spec_from_split. Qed.
 
 (* main theorem: every history outside the known finding classes satisfies the whole property *)
@@ -2209,7 +2456,7 @@ Lemma all_spec w t0 h : spec w t0 (run w t0 h).
 Proof.
   apply spec_split.
   repeat split; [apply isolation_holds|apply expiry_holds|apply accept_holds|apply after_holds|apply request_holds
-                |apply pending_holds|apply ends_holds].
+                |apply pending_holds|apply ends_holds|apply others_holds].
 Qed.
 
 (* no finding class is open: the guard of the earlier rounds is vacuous *)
@@ -2408,3 +2655,41 @@ Example response_expiry_outputs :
   = [OAccepted; OAccepted; ORejected; ORejected; OUnit; OInfo (Some 1); OUnit; OExn TooOldErr; OIdentity [] [0];
      OIssuers [0]; OInfo (Some 2); OUnit; OInfo (Some 2); OUnit; OExn TooOldErr; OIdentity [] []].
 Proof. vm_compute. reflexivity. Qed.
+
+(* ================================================================ round 6: non-vacuity of the two additions.
+   (1) A request handed out but not on file (what `state_cache or {}` does to an application's empty state store
+   when the answer arrives at another client object of the same SP): the monitor of the earlier rounds - owners
+   learnt from the client's state only - accepts the trace (the answer "answers nothing"); the monitor learns from
+   the output that request 0 went to IdP 0, so its answer is the last one and the session must end. *)
+Fixpoint spec_from_b0 (w : world) (g : ghost) (vb : view) (tr : trace) : bool :=
+  match tr with
+  | [] => true
+  | (o, ou, va) :: r => step_ok_b w g vb o ou va && spec_from_b0 w (ghost_step0 w g vb o ou va) va r
+  end.
+Definition w_one : world := {| w_pref := [SOAP; REDIRECT; POST]; w_slo := [[REDIRECT]] |}.
+Definition v_in (p : list (rid * pview)) : view := {| v_subjects := [(0, [0])]; v_logged := [0]; v_pending := p |}.
+Definition tr_lost : trace :=
+  [(Login 0 0 2000 1, OUnit, v_in []);
+   (StartLogout 0 None [], OSent [SentPending 0 REDIRECT 0], v_in []);
+   (LogoutResponse 0 0 true [], OExn KeyErr, v_in [])].
+Example lost_request_detected :
+  spec_from_b0 w_one (ghost0 1000) empty_view tr_lost = true /\ spec_b w_one 1000 tr_lost = false
+  /\ map (fun x => snd (fst x)) (run w_one 1000 (map (fun x => fst (fst x)) tr_lost)) =
+     [OUnit; OSent [SentPending 0 REDIRECT 0]; ODone].
+Proof. vm_compute. repeat split. Qed.
+
+(* (2) Two subjects wait for the same IdP; the answer to subject 0's request must not take subject 1's pending
+   request with it (what comparing the lists of outstanding IdPs by value does): clause 8 fails at that very step;
+   with subject 1's request left alone the trace is accepted - and that is what the model does. *)
+Definition pv1 (s : subj) : pview := {| pv_entity := 0; pv_list := [0]; pv_subj := s; pv_expire := None |}.
+Definition v_two (p : list (rid * pview)) : view :=
+  {| v_subjects := [(0, [0]); (1, [0])]; v_logged := [0; 1]; v_pending := p |}.
+Definition tr_cross (left : list (rid * pview)) : trace :=
+  [(Login 0 0 2000 1, OUnit, v_in []); (Login 1 0 2000 2, OUnit, v_two []);
+   (StartLogout 0 None [], OSent [SentPending 0 REDIRECT 0], v_two [(0, pv1 0)]);
+   (StartLogout 1 None [], OSent [SentPending 0 REDIRECT 1], v_two [(0, pv1 0); (1, pv1 1)]);
+   (LogoutResponse 0 0 true [], ODone, {| v_subjects := [(1, [0])]; v_logged := [1]; v_pending := left |})].
+Example cross_subject_drop_detected :
+  spec_b w_one 1000 (tr_cross []) = false /\ spec_b w_one 1000 (tr_cross [(1, pv1 1)]) = true
+  /\ run w_one 1000 (map (fun x => fst (fst x)) (tr_cross [])) = tr_cross [(1, pv1 1)].
+Proof. vm_compute. repeat split. Qed.
